@@ -42,7 +42,7 @@ PROPS = {
             "trivial": lambda op, res: False},
     "C19": {"rule": "rng.key/seed/entropy, ecies.enc, cfb.enc, env.new with crypto/rand.Reader replaced by a logging tape: outputs must equal the Lean tape consumers byte for byte; failing reads; sign before/after RNG consumption.",
             "trivial": lambda op, res: False},
-    "C20": {"rule": "env.new on payloads from a JSON value grammar (quotes, backslashes, control and non-ASCII characters, <>&, nesting, numbers) incl. validity after marshal/unmarshal; env.valid over 3 mime types, every payload character altered, r+-1, s+-1, N-s twin, swapped key, 4 present/absent combinations x valid/malformed hex.",
+    "C20": {"gens": ["C20", "C03"], "rule": "(plus the C03 verify stream: IsValid inherits Signature.Verify) env.new on payloads from a JSON value grammar (quotes, backslashes, control and non-ASCII characters, <>&, nesting, numbers) incl. validity after marshal/unmarshal; env.valid over 3 mime types, every payload character altered, r+-1, s+-1, N-s twin, swapped key, 4 present/absent combinations x valid/malformed hex.",
             "trivial": lambda op, res: False},
     "C09": {"extra": [wrap_search], "rule": "field.* ops through build-tag hooks on word vectors at 0/1/prime-word/mask boundaries and magnitude limits, vs the Lean definitions regenerated from bec/field.go.",
             "trivial": lambda op, res: False},
